@@ -25,6 +25,11 @@ import CLModel.Props.C11
 import CLModel.Props.C12
 import CLModel.Proofs.C13MContracts
 import CLModel.Proofs.C13MExample
+import CLModel.Paths.TomlConfig
+import CLModel.Proofs.C13Toml
+import CLModel.Proofs.C13TomlCompose
+import CLModel.Proofs.C13TomlExample
+import CLModel.Proofs.C13Ini
 namespace C13
 open PF
 
@@ -838,3 +843,379 @@ theorem sub_class_witness :
      | .error _ => false) = true := by decide +kernel
 
 end C13M
+
+/-!
+## C13T — the TOML route: `TOMLParser` on the `toml.load` dictionaries, composed with the enumeration
+
+`TC.parse w env ig top` (Paths/TomlConfig.lean) = `TOMLParser().parse(top, env=env, ignore_missing_includes=ig)` where `w.files`
+maps the path of every loadable configuration file to what `toml.load` returns for it (`TC.TV`), `env` is the command-line
+environment; the result is the `ProjectConfig` graph `TC.PC`.  `TC.enumerate w env ig configs locale mergebase fs` =
+`list(ProjectFiles(locale, [parse(c) for c in configs], mergebase))` over the regular files `fs`, through `ProjectFilesM`:
+one function of (dictionaries, env, file tree).  `C13T.FromFile w env c` says that the object `c` is what ONE file says:
+`c.path` is loadable, `c.root` is its `basepath` resolved against its directory, `c.environ` its `[env]` overridden by `env`,
+`c.paths` its `[[paths]]` tables one by one, `c.rules` its compiled `[[filters]]`, `c.locales` its `locales`.
+-/
+namespace C13T
+open TC PF
+
+/-- **What `parse` can raise** (never anything else; `illTyped` stands for "a value of another type than the code expects",
+    which is outside the model).  `ConfigNotFound(q)`: `q` really is not a loadable file, and with `ignore_missing_includes`
+    it can only be the top file itself — a missing include/exclude is then skipped, at any depth; `KeyError`: only the three
+    mandatory keys (`l10n` of `[[paths]]`, `path` of `[[filters]]`/`[[includes]]`/`[[excludes]]`, `action` of `[[filters]]`);
+    the rest is `ExcludeError`, an exception of `Matcher(...)`/`expand(...)`, or `RecursionError` (include cycle). -/
+theorem parse_raises_only {w : World} {env : Env} {ig : Bool} {top : Text} {e : TC.Err}
+    (h : parse w env ig top = .error e) :
+    match e with
+    | .configNotFound q => w.files.lookup (abspath w.cwd q) = none ∧ (ig = true → q = top)
+    | .keyError k => k = T "l10n" ∨ k = T "path" ∨ k = T "action"
+    | .illTyped => ∃ q tv, w.files.lookup q = some tv ∧ decode tv = none
+    | _ => True := by
+  have := parseF_error _ _ _ h
+  cases e <;> exact this
+
+/-- **Parsing is total on well-typed dictionaries**: if every file of the world reads against the schema (`decode`), `parse`
+    returns a configuration or raises one of the Python exceptions above — never the model's "ill-typed". -/
+theorem parse_total_welltyped {w : World} {env : Env} {ig : Bool} {top : Text}
+    (hw : ∀ q tv, w.files.lookup q = some tv → (decode tv).isSome = true) :
+    parse w env ig top ≠ .error .illTyped := by
+  intro h
+  obtain ⟨q, tv, hq, hd⟩ := parseF_error _ _ _ h
+  have := hw q tv hq
+  rw [hd] at this
+  cases this
+
+/-- **A missing include/exclude, exactly**: when the recursive `parse` of a child raises `ConfigNotFound`, `_processChild`
+    re-raises it unless `ignore_missing_includes`, in which case the child is skipped and the rest is processed as if the
+    entry were not there. -/
+theorem missing_child {parseOne : Text → Except TC.Err PC} {ig : Bool} {cwd : Text} {root : Option Text} {environ : Env}
+    {refused : PC → Bool} {c : ChildDoc} {cs : List ChildDoc} {t p q : Text}
+    (hc : c.path = some t) (hp : childPath cwd root environ t = .ok p) (hq : parseOne p = .error (.configNotFound q)) :
+    processChildren parseOne ig cwd root environ refused (c :: cs) =
+      if ig then processChildren parseOne ig cwd root environ refused cs else .error (.configNotFound q) := by
+  cases ig <;> simp [processChildren, hc, hp, hq]
+
+/-- Every other exception of a child's `parse` is never swallowed. -/
+theorem child_error_propagates {parseOne : Text → Except TC.Err PC} {ig : Bool} {cwd : Text} {root : Option Text}
+    {environ : Env} {refused : PC → Bool} {c : ChildDoc} {cs : List ChildDoc} {t p : Text} {e : TC.Err}
+    (hc : c.path = some t) (hp : childPath cwd root environ t = .ok p) (he : parseOne p = .error e)
+    (hne : ∀ q, e ≠ .configNotFound q) :
+    processChildren parseOne ig cwd root environ refused (c :: cs) = .error e := by
+  cases e with
+  | configNotFound q => exact absurd rfl (hne q)
+  | _ => simp [processChildren, hc, hp, he]
+
+/-- **Every object of the parsed graph is what one file says** — the top config, its includes and its excludes, at any
+    depth (`FromFile`, see the header).  In particular every `[[paths]]` table yields exactly one path rule, in order, with
+    its own `reference`, `test` and `locales` (`(optL doc.paths).map PathDoc.toPathD? = c.paths.map some`). -/
+theorem parsed_node_from_file {w : World} {env : Env} {ig : Bool} {top : Text} {pc : PC}
+    (h : parse w env ig top = .ok pc) : ∀ c ∈ pc.nodes, FromFile w env c :=
+  parseF_nodes _ _ _ h
+
+/-- `[[paths]]` tables and path rules correspond one to one. -/
+theorem paths_one_rule_each {w : World} {env : Env} {c : PC} (h : FromFile w env c) :
+    ∃ p doc, c.path = some p ∧ w.load p = .ok doc ∧ c.paths.length = (optL doc.paths).length ∧
+      ∀ (i : Nat) (d : PathD), c.paths[i]? = some d → ∃ t : PathDoc, (optL doc.paths)[i]? = some t ∧ t.l10n = some d.l10n ∧
+        t.reference = d.reference ∧ t.test = d.test ∧ t.locales = d.locales ∧ d.module = none := by
+  obtain ⟨p, doc, h1, h2, _, _, h5, _, _⟩ := h
+  refine ⟨p, doc, h1, h2, ?_, fun i d hd => ?_⟩
+  · have := congrArg List.length h5
+    simpa using this.symm
+  · have h6 : ((optL doc.paths).map PathDoc.toPathD?)[i]? = (c.paths.map some)[i]? := by rw [h5]
+    simp only [List.getElem?_map, hd, Option.map_some] at h6
+    cases ht : (optL doc.paths)[i]? with
+    | none => simp [ht] at h6
+    | some t =>
+      simp only [ht, Option.map_some, Option.some.injEq] at h6
+      refine ⟨t, rfl, ?_⟩
+      unfold PathDoc.toPathD? at h6
+      cases hl : t.l10n with
+      | none => simp [hl] at h6
+      | some l =>
+        simp only [hl, Option.map_some, Option.some.injEq] at h6
+        subst h6
+        simp
+
+/-- **The command line overrides the file, in every configuration of the graph** (`env_override` lifted through the whole
+    parse): for the top config, every included and every excluded config at any depth, the value of a variable is the
+    command-line one if given, else the one of THAT config's own `[env]` table.  A child inherits the command-line env
+    (`parse(p, env=ctx.env)`) and nothing of its parent's `[env]`. -/
+theorem cmdline_env_wins {w : World} {env : Env} {ig : Bool} {top : Text} {pc : PC}
+    (h : parse w env ig top = .ok pc) : ∀ c ∈ pc.nodes, ∃ p doc, c.path = some p ∧ w.load p = .ok doc ∧
+      ∀ k, c.environ.lookup k = (env.reverse.lookup k).or ((optL doc.env).reverse.lookup k) := by
+  intro c hc
+  obtain ⟨p, doc, h1, h2, _, h4, _⟩ := parseF_nodes _ _ _ h c hc
+  refine ⟨p, doc, h1, h2, fun k => ?_⟩
+  rw [h4, TC.processEnv, lookup_dupdate, lookup_dupdate]
+  simp
+
+/-- **`all_locales`** is the union of the config's `locales`, the `locales` of its path rules and `all_locales` of its
+    INCLUDED configs; the excludes never contribute. -/
+theorem all_locales_union (pc : PC) (l : Text) :
+    l ∈ pc.allLocales ↔ l ∈ ownLocales pc ∨ ∃ ch ∈ pc.children, l ∈ ch.allLocales :=
+  mem_allLocales pc l
+
+/-- … and it is what the project gate of `ProjectFiles.__init__` tests on the tree handed to the enumeration. -/
+theorem all_locales_gate (md : Mode) (ids : List (Option Text)) (pc : PC) (n : Nat) (loc : Loc) :
+    inAllLocales (toCfg md ids pc n).2 loc = true ↔ loc ∈ pc.allLocales :=
+  inAllLocales_toCfg md ids pc n loc
+
+/-- The bound on the nesting of includes is immaterial once it suffices: any result other than the model's `RecursionError`
+    stays the same under every larger bound. -/
+theorem parse_fuel_irrelevant {w : World} {env : Env} {ig : Bool} {f : Nat} {top : Text} {r : Except TC.Err PC}
+    (h : parseF w env ig f top = r) (hne : r ≠ .error .recursion) : ∀ g, f ≤ g → parseF w env ig g top = r := by
+  intro g hg
+  induction hg with
+  | refl => exact h
+  | step _ ih => exact parseF_mono _ _ _ ih hne
+
+/-! ### parsing composed with the enumeration: C13 over (dictionaries, env, file tree) -/
+
+/-- **Each path at most once, sorted** — for what `enumerate` yields from dictionaries, env and tree (locale and validation mode). -/
+theorem enumerate_nodup_sorted {w : World} {env : Env} {ig : Bool} {configs : List Text} {locale : Option Loc}
+    {mb : Option Text} {fs : FS} {its : List Item} (h : enumerate w env ig configs locale mb fs = .ok its) :
+    (its.map (·.path)).Pairwise (fun a b => a < b) := by
+  obtain ⟨o, _, rfl⟩ := enumerate_ok h
+  exact C13.iter_nodup_sorted _ _ _
+
+/-- **Nothing of an excluded configuration**: no enumerated path is matched by the nested `ProjectFiles` built from the
+    configurations the `[[excludes]]` tables name (and that are not included explicitly). -/
+theorem enumerate_not_excluded {w : World} {env : Env} {ig : Bool} {configs : List Text} {locale : Option Loc}
+    {mb : Option Text} {fs : FS} {its : List Item} (h : enumerate w env ig configs locale mb fs = .ok its)
+    (hloc : truthy locale = true) :
+    ∃ o, projectFiles w env ig configs locale mb = .ok o ∧ ∀ it ∈ its, excludedBy o.env o.pf.exclude it.path = false := by
+  obtain ⟨o, ho, rfl⟩ := enumerate_ok h
+  refine ⟨o, ho, fun it hit => ?_⟩
+  obtain ⟨pcs, _, hnew⟩ := projectFiles_ok ho
+  obtain ⟨_, he, hpf⟩ := PFM.newM_ok hnew
+  unfold PF.new at hpf
+  obtain ⟨_, _, _, hl, _⟩ := build_ok hpf
+  exact C13.iter_excluded_sound (by rw [hl]; exact hloc) hit
+
+/-- **Soundness over the dictionaries.**  Whatever `enumerate` yields for a locale is claimed by a `[[paths]]` table `d` of
+    a configuration `c` that is the top file of a project or reached from it through `[[includes]]` only (`c ∈ project.configs`:
+    never through `[[excludes]]`), `c` is what its file says (`FromFile`), the locale is in the project's `all_locales`, enabled
+    for `c` (`locales` of the file) and for `d` (`locales` of the table), and the table's `test` names are among the item's tests. -/
+theorem enumerate_sound {w : World} {env : Env} {ig : Bool} {configs : List Text} {locale : Option Loc}
+    {mb : Option Text} {fs : FS} {its : List Item} (h : enumerate w env ig configs locale mb fs = .ok its)
+    (hloc : truthy locale = true) {it : Item} (hit : it ∈ its) :
+    ∃ pcs, parseAll w env ig configs = .ok pcs ∧ ∃ project ∈ pcs, (∀ l, locale = some l → l ∈ project.allLocales) ∧
+      ∃ c ∈ project.configs, FromFile w env c ∧ localeOk locale c.locales = true ∧
+        ∃ d ∈ c.paths, localeOk locale d.locales = true ∧
+          ∀ ts, d.test = some ts → ∀ t ∈ ts, PFM.encode t ∈ it.test := by
+  obtain ⟨o, ho, rfl⟩ := enumerate_ok h
+  obtain ⟨pcs, hpcs, hnew⟩ := projectFiles_ok ho
+  obtain ⟨_, he, hpf⟩ := PFM.newM_ok hnew
+  rw [he] at hit
+  obtain ⟨project, hproj, hen, cfg, hcfg, hok, pr, hpr, hok2, htest, _⟩ := C13.iter_sound hpf hloc hit
+  obtain ⟨pc, hpc, n, rfl⟩ := mem_toCfgL _ _ _ _ _ hproj
+  obtain ⟨c, hc, m, rfl⟩ := toCfg_configs _ _ _ _ _ hcfg
+  obtain ⟨d, hd, k, rfl⟩ := toCfg_paths _ _ _ _ _ hpr
+  obtain ⟨p, _, hparse⟩ := parseAll_mem hpcs pc hpc
+  refine ⟨pcs, hpcs, pc, hpc, fun l hl => (inAllLocales_toCfg _ _ _ _ _).1 (hen l hl), c, hc,
+    parseF_nodes _ _ _ hparse c (configs_sub_nodes pc c hc), ?_, d, hd, ?_, ?_⟩
+  · rw [← toCfg_locales]; exact hok
+  · simpa [pathSpecs] using hok2
+  · intro ts hts t ht
+    exact htest (ts.map PFM.encode) (by simp [pathSpecs, hts]) (PFM.encode t) (List.mem_map.2 ⟨t, ht, rfl⟩)
+
+/-! ### non-vacuity: the two-file world of Proofs/C13TomlExample.lean, evaluated -/
+
+/-- with `ignore_missing_includes`: root `/r` for both files, the command line wins `v` in the parent AND in the child, the
+    child keeps its own `w` and inherits nothing of the parent's `[env]` (no `l`), one rule per `[[paths]]`, the compiled
+    filter key `k\.1$`, `all_locales` = own + child's per-path locales, the missing exclude is skipped -/
+example :
+    okOf exParsed (·.root) = some (some (T "/r")) ∧
+    okOf exParsed (·.environ) = some [(T "v", T "cmd"), (T "l", T "{l10n_base}/{locale}/"), (T "l10n_base", T "/l")] ∧
+    okOf exParsed (fun pc => pc.paths.map (·.l10n)) = some [T "{l}m/*.ftl"] ∧
+    okOf exParsed (fun pc => pc.rules.map (fun x => (x.path, x.key.map KeyD.source, x.action))) =
+      some [(T "{l}m/a.ftl", some (T "k\\.1$"), T "ignore")] := by decide +kernel
+
+example :
+    okOf exParsed (·.allLocales) = some [T "de", T "fr"] ∧
+    okOf exParsed (fun pc => pc.children.map (·.path)) = some [some (T "/r/cfg/a.toml")] ∧
+    okOf exParsed (fun pc => pc.children.map (·.root)) = some [some (T "/r")] := by decide +kernel
+
+example :
+    okOf exParsed (fun pc => pc.children.map (·.environ)) = some [[(T "v", T "cmd"), (T "w", T "kept"), (T "l10n_base", T "/l")]] ∧
+    okOf exParsed (fun pc => pc.children.flatMap (fun c => c.paths.flatMap (fun d => optL d.locales))) = some [T "fr"] ∧
+    okOf exParsed (·.excludes.length) = some 0 := by decide +kernel
+
+/-- without it: the documented `ConfigNotFound`, for the normalised path of the missing exclude -/
+example : errOf (parse exWorld exEnv false (T "/r/l10n.toml")) = some (.configNotFound (T "/r/cfg/gone.toml")) := by
+  decide +kernel
+
+/-- dictionaries + env + tree → enumeration, locale `de`: the localized file and the reference-only file of the parent's
+    rule (with its test), nothing of locale `fr`, nothing of the child's rule (its `locales` is `["fr"]`) -/
+example : okOf (enumerate exWorld exEnv true [T "/r/l10n.toml"] (some (T "de")) none
+      { files := [T "/r/l10n.toml", T "/l/de/m/a.ftl", T "/l/de/m/sub/b.ftl", T "/r/ref/m/c.ftl", T "/l/fr/m/a.ftl", T "/l/de/c/cmd.ftl"] }) id
+    = some [{ path := T "/l/de/m/a.ftl", reference := some (T "/r/ref/m/a.ftl"), merge := none, test := [PFM.encode (T "android-dtd")] },
+           { path := T "/l/de/m/c.ftl", reference := some (T "/r/ref/m/c.ftl"), merge := none, test := [PFM.encode (T "android-dtd")] }] := by
+  decide +kernel
+
+/-- … locale `fr`: in `all_locales` only through the child's rule; the parent config (`locales = ["de"]`) is gated off; the
+    child's `{v}` is the command-line value -/
+example : okOf (enumerate exWorld exEnv true [T "/r/l10n.toml"] (some (T "fr")) none
+      { files := [T "/l/fr/c/child.ftl", T "/r/ref/m/c.ftl", T "/l/fr/m/a.ftl", T "/l/fr/c/cmd.ftl"] }) id
+    = some [{ path := T "/l/fr/c/cmd.ftl", reference := none, merge := none, test := [] }] := by
+  decide +kernel
+
+/-! ### negation witnesses -/
+
+/-- the hypothesis of `parse_total_welltyped` is needed: `locales = "de"` (a string, not a list) is outside the model -/
+theorem illtyped_witness : errOf (parse illWorld [] false (T "/r/l10n.toml")) = some .illTyped ∧
+    ¬ (∀ q tv, illWorld.files.lookup q = some tv → (decode tv).isSome = true) := by
+  refine ⟨by decide +kernel, fun h => ?_⟩
+  have := h (T "/r/l10n.toml") _ rfl
+  revert this
+  decide +kernel
+
+/-- an include cycle is the model's `RecursionError` (the harness runs the real parser on such files: `RecursionError`) -/
+theorem include_cycle_witness : errOf (parse selfWorld [] true (T "/r/l10n.toml")) = some .recursion := by decide +kernel
+
+end C13T
+
+/-!
+## C13I — the legacy l10n.ini route (`paths/ini.py`): `EnumerateApp(inipath, l10nbase).asConfig()`
+
+`TI.enumerateApp w fl inipath l10nbase` (Paths/IniConfig.lean) on the parsed ini sections `w.inis` (what `ConfigParser` answers).
+-/
+namespace C13I
+open TI TC PF
+
+/-- **The `ProjectConfig` of an l10n.ini** is a single config without path, root, children, excludes and filter rules, whose
+    only variable is `l10n_base = abspath(l10nbase)`, whose `locales` are those of the `all-locales` file the top ini names,
+    and whose path rules are `ruleOfDir` of `directories()` of the loaded configuration, in that order. -/
+theorem ini_config_shape {w : IniWorld} {fl : Flavour} {inipath l10nbase : Text} {r : Result}
+    (h : enumerateApp w fl inipath l10nbase = .ok r) :
+    ∃ cfg ls, load w fl inipath = .ok cfg ∧
+      r.pc = .mk none none (PM.dupdate [] [(l10nBaseName, abspath w.cwd l10nbase)])
+                (cfg.directories.map ruleOfDir) [] (some ls) [] [] := by
+  unfold enumerateApp at h
+  split at h
+  · cases h
+  · rename_i cfg hcfg
+    obtain ⟨ls, hpc, _⟩ := asConfig_ok h
+    exact ⟨cfg, ls, hcfg, hpc⟩
+
+/-- **Every `dirs` entry yields the two path rules, with the module set**: for every loaded ini file `n` of the include tree
+    (the top file or an included one, at any depth) and every word `m` of its `[compare] dirs`, the config has a path rule with
+    l10n `normpath("{l10n_base}/{locale}/" + m + "/**")`, reference `normpath(n.base + "/" + m + "/locales/en-US/**")` and
+    `module = m` (plus the `android-dtd` test exactly for `mobile/android/base`) — and every path rule is of that form. -/
+theorem dirs_entry_two_rules {w : IniWorld} {fl : Flavour} {inipath l10nbase : Text} {r : Result}
+    (h : enumerateApp w fl inipath l10nbase = .ok r) :
+    ∃ cfg, load w fl inipath = .ok cfg ∧ ∀ d : PathD, d ∈ r.pc.paths ↔
+      ∃ n ∈ nodes cfg, ∃ m ∈ n.dirs,
+        d = { l10n := normpath (Gen.TablesCfg.iniL10nPrefix ++ m ++ Gen.TablesCfg.iniL10nSuffix),
+              reference := some (normpath (n.base ++ Gen.TablesCfg.iniRefSep ++ m ++ Gen.TablesCfg.iniRefSuffix)),
+              test := if m == Gen.TablesCfg.iniTestModule then some [Gen.TablesCfg.iniTestName] else none,
+              locales := none, module := some m } := by
+  obtain ⟨cfg, ls, hcfg, hpc⟩ := ini_config_shape h
+  refine ⟨cfg, hcfg, fun d => ?_⟩
+  rw [hpc]
+  simp only [PC.paths, List.mem_map]
+  constructor
+  · rintro ⟨bm, hbm, rfl⟩
+    obtain ⟨n, hn, h1, h2⟩ := (mem_directories cfg bm).1 hbm
+    exact ⟨n, hn, bm.2, h2, by simp [ruleOfDir, h1]⟩
+  · rintro ⟨n, hn, m, hm, rfl⟩
+    exact ⟨(n.base, m), (mem_directories cfg _).2 ⟨n, hn, rfl, hm⟩, rfl⟩
+
+/-- the top file's own `dirs` words are among them, with `base = dirname(inipath)/depth` (`.` without a `depth` option) -/
+theorem top_dirs_loaded {w : IniWorld} {fl : Flavour} {f : Nat} {given : Text} {cfg : Loaded}
+    (h : loadF w fl (f + 1) given = .ok cfg) :
+    cfg ∈ nodes cfg ∧
+    cfg.base = join (dirname (normpath given)) (match (w.doc (normpath given)).depth with | some d => d | none => dot) ∧
+    cfg.dirs = (match (w.doc (normpath given)).dirs with | some s => splitWs s | none => []) := by
+  obtain ⟨_, h2, h3⟩ := loadF_top h
+  refine ⟨?_, h2, h3⟩
+  obtain ⟨p, b, d, a, ch⟩ := cfg
+  rw [nodes_mk]; exact List.mem_cons_self
+
+/-! ### non-vacuity -/
+
+def exIni : IniWorld :=
+  { inis := [(T "/r/browser/locales/l10n.ini",
+              { depth := some (T "../.."), all := some (T "browser/locales/all-locales"),
+                includes := some [(T "toolkit", T "toolkit/locales/l10n.ini")], dirs := some (T "browser mobile/android/base"), details := [] }),
+             (T "/r/toolkit/locales/l10n.ini",
+              { depth := some (T "../.."), all := none, includes := none, dirs := some (T "toolkit\n  dom"), details := [] })],
+    filters := [T "/r/toolkit/locales/l10n.ini"],
+    locales := [(T "/r/browser/locales/all-locales", [T "de", T "fr"])],
+    cwd := T "/" }
+
+def exRes : Except TI.Err Result := enumerateApp exIni .plain (T "/r/browser/locales/l10n.ini") (T "/l")
+
+def resOf {α} (f : Result → α) : Option α :=
+  match exRes with
+  | .ok x => some (f x)
+  | .error _ => none
+
+/-- one rule pair per `dirs` word of the top file and of the included one, module set, the Android test where due -/
+example : resOf (fun x => x.pc.paths.map (fun (d : PathD) => (d.l10n, d.reference))) = some
+    [(T "{l10n_base}/{locale}/browser/**", some (T "/r/browser/locales/en-US/**")),
+     (T "{l10n_base}/{locale}/mobile/android/base/**", some (T "/r/mobile/android/base/locales/en-US/**")),
+     (T "{l10n_base}/{locale}/toolkit/**", some (T "/r/toolkit/locales/en-US/**")),
+     (T "{l10n_base}/{locale}/dom/**", some (T "/r/dom/locales/en-US/**"))] := by decide +kernel
+
+example : resOf (fun x => x.pc.paths.map (fun (d : PathD) => (d.module, d.test))) = some
+    [(some (T "browser"), none), (some (T "mobile/android/base"), some [T "android-dtd"]),
+     (some (T "toolkit"), none), (some (T "dom"), none)] := by decide +kernel
+
+/-- locales from the all-locales file; the filter.py of the included ini (the top one has none) -/
+example : resOf (fun x => (x.pc.locales, x.filterFrom, x.pc.environ)) =
+    some (some [T "de", T "fr"], some (T "/r/toolkit/locales/l10n.ini"), [(T "l10n_base", T "/l")]) := by decide +kernel
+
+end C13I
+
+/-! ### C13T, continued: the matchers of a rule in the table handed to `ProjectFilesM` -/
+namespace C13T
+open TC PF
+
+/-- **Soundness over the dictionaries, with the matchers.**  An item `enumerate` yields for a locale comes from a `[[paths]]`
+    table `d` of a config `c` reached through includes only, gates passed (as in `enumerate_sound`), and: the table handed to
+    `ProjectFilesM` holds, under ids `k` (and `r`), exactly `Matcher(d.l10n, env=c.environ, root=c.root).with_env({"locale": locale})`
+    (and `Matcher(d.reference, env=c.environ, root=c.root)`); either the item's path is an existing, non-excluded file that
+    matcher `k` matches, or it is the `sub` image of an existing, non-excluded reference file matcher `r` matches. -/
+theorem enumerate_sound_matchers {w : World} {env : Env} {ig : Bool} {configs : List Text} {locale : Option Loc}
+    {mb : Option Text} {fs : FS} {its : List Item} (h : enumerate w env ig configs locale mb fs = .ok its)
+    (hloc : truthy locale = true) {it : Item} (hit : it ∈ its) :
+    ∃ o pcs, projectFiles w env ig configs locale mb = .ok o ∧ parseAll w env ig configs = .ok pcs ∧
+      ∃ project ∈ pcs, ∃ c ∈ project.configs, ∃ d ∈ c.paths, ∃ k,
+        (toPFM { locale := locale, mergebase := mb, cwd := w.cwd } pcs).1[k]? =
+          some (l10nSpec { locale := locale, mergebase := mb, cwd := w.cwd } c.root c.environ d.l10n) ∧
+        ((∃ g, it.path ∈ fs.files ∧ o.env.mtch k it.path = some g ∧ excludedBy o.env o.pf.exclude it.path = false) ∨
+         (∃ t r q g, d.reference = some t ∧
+            (toPFM { locale := locale, mergebase := mb, cwd := w.cwd } pcs).1[r]? =
+              some (refSpec { locale := locale, mergebase := mb, cwd := w.cwd } c.root c.environ t) ∧
+            q ∈ fs.files ∧ o.env.mtch r q = some g ∧ excludedBy o.env o.pf.exclude q = false ∧
+            excludedBy o.env o.pf.exclude it.path = false ∧ it.path = o.env.expand k g ∧ it.reference = some q)) := by
+  obtain ⟨o, ho, rfl⟩ := enumerate_ok h
+  obtain ⟨pcs, hpcs, hnew⟩ := projectFiles_ok ho
+  obtain ⟨_, he, hpf⟩ := PFM.newM_ok hnew
+  rw [he] at hit
+  obtain ⟨project, hproj, _, cfg, hcfg, _, pr, hpr, _, _, hcase⟩ := C13.iter_sound hpf hloc hit
+  obtain ⟨pc, hpc, _, c, hc, _, hr⟩ := toPFM_rule_origin _ pcs 0 [] []
+    (toPFM { locale := locale, mergebase := mb, cwd := w.cwd } pcs).1 (by simp [toPFM]) rfl project hproj cfg hcfg pr hpr
+  obtain ⟨d, hd, _, _, hk, href⟩ := ruleAt_specs hr
+  refine ⟨o, pcs, ho, hpcs, pc, hpc, c, hc, d, hd, pr.l10n, hk, ?_⟩
+  rw [he]
+  rcases hcase with ⟨g, h1, h2, h3, _⟩ | ⟨rm, q, g, h1, h2, h3, h4, h5, h6, h7, _⟩
+  · exact Or.inl ⟨g, h1, h2, h3⟩
+  · right
+    cases hdr : d.reference with
+    | none => rw [hdr] at href; simp only at href; rw [href] at h1; cases h1
+    | some t =>
+      rw [hdr] at href
+      obtain ⟨r, hr1, hr2⟩ := href
+      rw [hr1] at h1
+      simp only [Option.some.injEq] at h1
+      subst h1
+      exact ⟨t, r, q, g, rfl, hr2, h2, h3, h4, h5, h6, h7⟩
+
+/-- **The composition never fails for bookkeeping reasons**: the ids `toPFM` writes into the path rules are ids of its table
+    (`newM` cannot answer `badId`). -/
+theorem projectFiles_ids_ok (md : Mode) (pcs : List PC) :
+    PFM.idsOkL (toPFM md pcs).1.length (toPFM md pcs).2 = true :=
+  toPFM_idsOk md pcs
+
+end C13T
